@@ -494,6 +494,12 @@ class C14(Prop):
 
 def json_case(rng, tables):
     c = gen.conformant_stream(rng, tables, parsers=1) if rng.random() < 0.7 else gen.mutated_stream(rng, tables)
+    if rng.random() < 0.2:
+        # the shapes of the error element: a call that is just a version word (the inner `remaining`
+        # is then empty), a version word and a few bytes, one byte, an unknown version
+        tail = rng.choice([be(rng.choice([5, 7, 9, 10]), 2), be(rng.choice([5, 7, 9, 10]), 2) + bytes(rng.choice([1, 3])),
+                           be(rng.choice([5, 7, 9, 10]), 2), b"\x00", be(rng.choice([0, 11, 65535]), 2)])
+        c.ops.append("B 0 " + hexs(tail))
     # twin parser fed the same history
     ops = []
     for line in c.ops:
@@ -635,6 +641,8 @@ def unknown_case(rng, tables):
             add("B 0 " + hexs(pre))
             pre = b""
     tid = rng.choice([256, 257, 300, 1000, 65535])
+    if proto == "IPFix" and rng.random() < 0.15:
+        tid = 255          # the lowest id the crate treats as a data set (ids below it, other than 3, are template sets)
     if proto == "V9":
         tp, dp, tid, nrec = gen.v9_template_then_data(rng, ex, tid)
     else:
@@ -857,8 +865,26 @@ def common_case(rng, tables):
     seq = gen.packet_sequence(rng, tables, npk=rng.choice([1, 2, 3, 4]), ex=ex)
     if rng.random() < 0.2:
         seq.insert(rng.randrange(len(seq) + 1), (b"\x00\x09\x00", 9, "garbage"))
-    buf = b"".join(b for b, _v, _d in seq)
-    return Case("common", ["P 0", "P 1", "B 0 " + hexs(buf), "F 1 " + hexs(buf)])
+    ops = ["P 0", "P 1"]
+    if rng.random() < 0.3:
+        # the flat view must obey the parser's configuration like parse_bytes does
+        allowed = [v for v in (5, 7, 9, 10) if rng.random() < 0.7] or [9]
+        ops += ["A 0 " + ",".join(map(str, allowed)), "A 1 " + ",".join(map(str, allowed))]
+    if len(seq) > 1 and rng.random() < 0.5:
+        # the same packets over several calls: the flat view of a later call needs the templates the
+        # parser learned in an earlier one (through either entry point)
+        cut = sorted(rng.sample(range(1, len(seq)), rng.choice([1, min(2, len(seq) - 1)])))
+        parts = [seq[a:b] for a, b in zip([0] + cut, cut + [len(seq)])]
+    else:
+        parts = [seq]
+    seen = set()
+    for part in parts:
+        buf = b"".join(b for b, _v, _d in part)
+        if buf in seen:
+            continue                      # the oracle pairs the B and the F op of a call by their bytes
+        seen.add(buf)
+        ops += ["B 0 " + hexs(buf), "F 1 " + hexs(buf)]
+    return Case("common", ops)
 
 
 class C13(Prop):
@@ -898,7 +924,9 @@ class C15(Prop):
     technique = "Coq: output-size bounds by induction (records x record size <= bytes present, per version), count/length fields enter only through bytes actually consumed; counting global allocator in the harness against a linear bound; blow-ups as classes"
     level_text = ("Theorems C15_* (coq/Props/C15.v): the number of V5/V7 records times 48/52 plus 24 is at most the buffer length; a V9 data flowset holds "
                   "at most body/size records; every IPFIX record pass consumes at least one byte, so a data set holds at most |body| passes; every decoded "
-                  "packet's wire length is at most the bytes present (no announced-but-absent bytes are ever materialised). Partial: allocator behaviour "
+                  "packet's wire length is at most the bytes present (no announced-but-absent bytes are ever materialised); when no field of the governing "
+                  "template has length 0, a V9 data flowset / IPFIX data set of n bytes yields at most n values (C15_v9_values_le_bytes, "
+                  "C15_ipfix_values_le_bytes; C15_zero_len_refuted shows the hypothesis is needed). Partial: allocator behaviour "
                   "is measured by a counting allocator against 4096 + 600*|x| + 40*|serialized result| on the stress families, not proved; the known "
                   "super-linear behaviours (copy of the remaining buffer per chained packet, V9 retry loop, zero-length-field inflation) are classes.")
     level_note = "allocator rounding, Vec growth and BTreeMap nodes are outside the model; the linear bound's constants are calibrated on the unchanged tree"
